@@ -13,17 +13,116 @@ namespace Abyss.Buf
 def Content.ofList (l : List Nat) : Content := ⟨fun i => l.getD i 0, l.length⟩
 def Content.toList (c : Content) : List Nat := (List.range c.len).map c.byte
 
-theorem Content.toList_ofList (l : List Nat) : (Content.ofList l).toList = l := by sorry
+theorem Content.toList_ofList (l : List Nat) : (Content.ofList l).toList = l := by
+  apply List.ext_getElem
+  · simp [Content.toList, Content.ofList]
+  · intro i h1 h2
+    simp [Content.toList, Content.ofList, h2]
 
 /-- buffered writes keep a file coherent and are visible to every later read -/
 theorem write_coherent (f : BFile) (h : f.Coherent) (off : Nat) (bs : List Nat) :
-    (f.write off bs).Coherent := by sorry
+    (f.write off bs).Coherent := by
+  obtain ⟨hc, hb, hl⟩ := h
+  refine ⟨hc, ?_, ?_⟩
+  · intro i hi
+    simp only [BFile.write, List.mem_append, List.mem_map, List.mem_range, not_or] at hi ⊢
+    split
+    · next hin =>
+      exfalso; apply hi.2
+      exact ⟨i - off, by omega, by congr 1; omega⟩
+    · exact hb i hi.1
+  · intro hd
+    simp [BFile.write] at hd ⊢
+    simp [hd, hl hd.1]
 
 theorem read_after_write (f : BFile) (off : Nat) (bs : List Nat) :
-    (f.write off bs).read off bs.length = bs := by sorry
+    (f.write off bs).read off bs.length = bs := by
+  apply List.ext_getElem
+  · simp [BFile.read]
+  · intro i h1 h2
+    simp [BFile.read, BFile.write, h2]
 
 /-- reads never change a buffered file (C15, buffer level): `read` is a pure function of `mem` -/
 theorem read_pure (f : BFile) (off n : Nat) : f.read off n = (List.range n).map fun j => f.mem.byte (off + j) := rfl
+
+/-- helper: write-back (refused or not) never touches the memory view or the chunk size -/
+theorem flushFrom_mem (φ : Faults) (cs : List Nat) : ∀ (f : BFile) (k : Nat),
+    (BFile.flushFrom φ cs f k).1.mem = f.mem ∧ (BFile.flushFrom φ cs f k).1.chunk = f.chunk := by
+  induction cs with
+  | nil => intro f k; simp [BFile.flushFrom]
+  | cons c cs ih =>
+    intro f k
+    simp only [BFile.flushFrom]
+    split
+    · simp [BFile.writeRefused]
+    · rw [(ih _ _).1, (ih _ _).2]; simp [BFile.writeBack]
+
+/-- helper: the loop of `flush` over a duplicate-free list `cs` that lists exactly the dirty chunks.
+Invariant: disk and memory agree outside the dirty chunks (the length clause of `Coherent` is only
+re-established at the end, or holds vacuously at a refused write because that chunk is still dirty). -/
+theorem flushFrom_spec (φ : Faults) (cs : List Nat) : ∀ (f : BFile) (k : Nat), 0 < f.chunk →
+    (∀ i, i / f.chunk ∉ f.dirty → f.disk.byte i = f.mem.byte i) → cs.Nodup →
+    (∀ c, c ∈ f.dirty ↔ c ∈ cs) →
+    (BFile.flushFrom φ cs f k).1.Coherent ∧
+    ((BFile.flushFrom φ cs f k).2.1 = true →
+      (BFile.flushFrom φ cs f k).1.Durable ∧ (BFile.flushFrom φ cs f k).1.dirty = []) ∧
+    ((BFile.flushFrom φ cs f k).2.1 = false →
+      ∃ j, k ≤ j ∧ j < (BFile.flushFrom φ cs f k).2.2 ∧ φ.fails j = true) ∧
+    ((∀ j, φ.fails j = false) → (BFile.flushFrom φ cs f k).2.1 = true) := by
+  induction cs with
+  | nil =>
+    intro f k hc hb _ hm
+    have hd : f.dirty = [] := List.eq_nil_iff_forall_not_mem.2 fun c hcm => by simpa using (hm c).1 hcm
+    have hb' : ∀ i, f.disk.byte i = f.mem.byte i := fun i => hb i (by simp [hd])
+    simp [BFile.flushFrom, BFile.Coherent, BFile.Durable, hc, hd, hb']
+  | cons c cs ih =>
+    intro f k hc hb hnd hm
+    simp only [BFile.flushFrom]
+    by_cases hf : φ.fails k = true
+    · simp only [hf, if_true]
+      refine ⟨⟨hc, ?_, ?_⟩, by simp, fun _ => ⟨k, Nat.le_refl _, Nat.lt_succ_self _, hf⟩, ?_⟩
+      · intro i hi
+        simp only [BFile.writeRefused] at hi ⊢
+        split
+        · rfl
+        · exact hb i hi
+      · intro hd
+        have : c ∈ f.dirty := (hm c).2 (by simp)
+        simp [BFile.writeRefused] at hd
+        simp [hd] at this
+      · intro hall; simp [hall k] at hf
+    · simp only [hf]
+      have hnd' := List.nodup_cons.1 hnd
+      have := ih (f.writeBack c) (k + 1) hc ?_ hnd'.2 ?_
+      · obtain ⟨h1, h2, h3, h4⟩ := this
+        refine ⟨h1, h2, ?_, h4⟩
+        intro hfl
+        obtain ⟨j, hj1, hj2, hj3⟩ := h3 hfl
+        exact ⟨j, by omega, hj2, hj3⟩
+      · intro i hi
+        simp only [BFile.writeBack, List.mem_filter, decide_eq_true_eq, not_and, Decidable.not_not] at hi ⊢
+        split
+        · rfl
+        · next hne => exact hb i fun hmem => hne (hi hmem)
+      · intro d
+        simp only [BFile.writeBack, List.mem_filter, decide_eq_true_eq]
+        rw [hm d]
+        constructor
+        · rintro ⟨h1, h2⟩
+          cases List.mem_cons.1 h1 with
+          | inl h => exact absurd h h2
+          | inr h => exact h
+        · intro h
+          exact ⟨List.mem_cons_of_mem _ h, fun he => hnd'.1 (he ▸ h)⟩
+
+/-- helper: `List.eraseDups` has no duplicates (not in core) -/
+theorem nodup_eraseDups : ∀ (n : Nat) (l : List Nat), l.length ≤ n → l.eraseDups.Nodup
+  | _, [], _ => by simp
+  | 0, _ :: _, h => by simp at h
+  | n + 1, a :: as, h => by
+    rw [List.eraseDups_cons, List.nodup_cons]
+    refine ⟨?_, nodup_eraseDups n _ (Nat.le_trans (List.length_filter_le _ _) (by simpa using h))⟩
+    rw [List.mem_eraseDups]; simp
 
 /-- one file: a flush under any fault schedule keeps the memory view and coherence; if it reports
 Ok the disk equals the memory view and nothing is dirty any more -/
@@ -31,40 +130,162 @@ theorem flush_spec (φ : Faults) (f : BFile) (h : f.Coherent) (k : Nat) :
     (f.flush φ k).1.Coherent ∧ (f.flush φ k).1.mem = f.mem ∧ (f.flush φ k).1.chunk = f.chunk ∧
     ((f.flush φ k).2.1 = true → (f.flush φ k).1.Durable ∧ (f.flush φ k).1.dirty = []) ∧
     ((f.flush φ k).2.1 = false → ∃ j, k ≤ j ∧ j < (f.flush φ k).2.2 ∧ φ.fails j = true) ∧
-    ((∀ j, φ.fails j = false) → (f.flush φ k).2.1 = true) := by sorry
+    ((∀ j, φ.fails j = false) → (f.flush φ k).2.1 = true) := by
+  have h1 := flushFrom_spec φ f.dirty.eraseDups f k h.1 h.2.1
+    (nodup_eraseDups _ _ (Nat.le_refl _)) (fun c => List.mem_eraseDups.symm)
+  have h2 := flushFrom_mem φ f.dirty.eraseDups f k
+  exact ⟨h1.1, h2.1, h2.2, h1.2⟩
+
+/-- `flush_spec` for a named result -/
+theorem flush_spec' {φ : Faults} {f g : BFile} {k k' : Nat} {ok : Bool} (h : f.Coherent)
+    (e : f.flush φ k = (g, ok, k')) :
+    g.Coherent ∧ g.mem = f.mem ∧ g.chunk = f.chunk ∧ (ok = true → g.Durable ∧ g.dirty = []) ∧
+    (ok = false → ∃ j, k ≤ j ∧ j < k' ∧ φ.fails j = true) ∧
+    ((∀ j, φ.fails j = false) → ok = true) := by
+  have := flush_spec φ f h k
+  rw [e] at this; exact this
+
+/-- the memory view survives a flush even of an incoherent file -/
+theorem flush_mem' {φ : Faults} {f g : BFile} {k k' : Nat} {ok : Bool}
+    (e : f.flush φ k = (g, ok, k')) : g.mem = f.mem := by
+  have := (flushFrom_mem φ f.dirty.eraseDups f k).1
+  unfold BFile.flush at e
+  rw [e] at this; exact this
+
+theorem durable_of_clean (f : BFile) (h : f.Coherent) (hd : f.dirty = []) : f.Durable :=
+  ⟨fun i => h.2.1 i (by simp [hd]), h.2.2 hd⟩
+
+theorem foldl_write_coherent (ws : List (Nat × List Nat)) : ∀ (f : BFile), f.Coherent →
+    (ws.foldl (fun f w => f.write w.1 w.2) f).Coherent := by
+  induction ws with
+  | nil => intro f h; exact h
+  | cons w ws ih => intro f h; exact ih _ (write_coherent f h _ _)
 
 /-- an update keeps the buffer invariant and raises the dirty flag -/
 theorem update_ok (m : MapBuf) (h : m.OK) (wv wk wh : List (Nat × List Nat)) :
-    (m.update wv wk wh).OK ∧ (m.update wv wk wh).dirty = true := by sorry
+    (m.update wv wk wh).OK ∧ (m.update wv wk wh).dirty = true := by
+  refine ⟨⟨foldl_write_coherent _ _ h.1, foldl_write_coherent _ _ h.2.1,
+    foldl_write_coherent _ _ h.2.2.1, ?_⟩, rfl⟩
+  intro hd; simp [MapBuf.update] at hd
+
+/-- helper: the five ways a flush-like call can go -/
+theorem flushLike_cases (φ : Faults) (kind : SyncKind) (m : MapBuf) :
+    (m.dirty = false ∧ m.flushLike φ kind = (m, true, [])) ∨
+    (m.dirty = true ∧ ∃ v k1, m.val.flush φ 0 = (v, false, k1) ∧
+      m.flushLike φ kind = ({ m with val := v }, false, [.flush "val"])) ∨
+    (m.dirty = true ∧ ∃ v k1 kf k2, m.val.flush φ 0 = (v, true, k1) ∧
+      m.key.flush φ k1 = (kf, false, k2) ∧
+      m.flushLike φ kind = ({ m with val := v, key := kf }, false, evs kind "val" ++ [.flush "key"])) ∨
+    (m.dirty = true ∧ ∃ v k1 kf k2 hx k3, m.val.flush φ 0 = (v, true, k1) ∧
+      m.key.flush φ k1 = (kf, true, k2) ∧ m.htx.flush φ k2 = (hx, false, k3) ∧
+      m.flushLike φ kind = ({ m with val := v, key := kf, htx := hx }, false,
+        evs kind "val" ++ evs kind "key" ++ [.flush "htx"])) ∨
+    (m.dirty = true ∧ ∃ v k1 kf k2 hx k3, m.val.flush φ 0 = (v, true, k1) ∧
+      m.key.flush φ k1 = (kf, true, k2) ∧ m.htx.flush φ k2 = (hx, true, k3) ∧
+      m.flushLike φ kind = ({ val := v, key := kf, htx := hx, dirty := false }, true,
+        evs kind "val" ++ evs kind "key" ++ evs kind "htx")) := by
+  unfold MapBuf.flushLike
+  cases hd : m.dirty
+  · left; simp
+  · right
+    rcases hv : m.val.flush φ 0 with ⟨v, okv, k1⟩
+    cases okv
+    · left; exact ⟨rfl, v, k1, rfl, by simp⟩
+    · right
+      rcases hk : m.key.flush φ k1 with ⟨kf, okk, k2⟩
+      cases okk
+      · left; exact ⟨rfl, v, k1, kf, k2, rfl, hk, by simp [hk]⟩
+      · right
+        rcases hh : m.htx.flush φ k2 with ⟨hx, okh, k3⟩
+        cases okh
+        · left; exact ⟨rfl, v, k1, kf, k2, hx, k3, rfl, hk, hh, by simp [hk, hh]⟩
+        · right; exact ⟨rfl, v, k1, kf, k2, hx, k3, rfl, hk, hh, by simp [hk, hh]⟩
 
 /-- **C03.** Whenever flush / sync_all / sync_data returns Ok, every byte and the length of each of
 the three files on disk equal what the map sees in memory — i.e. every preceding update is on disk —
 whatever happened before (including earlier failed flushes), and the buffers are clean. -/
 theorem C03_durable (φ : Faults) (kind : SyncKind) (m : MapBuf) (h : m.OK)
     (hok : (m.flushLike φ kind).2.1 = true) :
-    (m.flushLike φ kind).1.Durable ∧ (m.flushLike φ kind).1.OK := by sorry
+    (m.flushLike φ kind).1.Durable ∧ (m.flushLike φ kind).1.OK := by
+  rcases flushLike_cases φ kind m with ⟨hd, e⟩ | ⟨hd, v, k1, ev, e⟩ | ⟨hd, v, k1, kf, k2, ev, ek, e⟩ |
+    ⟨hd, v, k1, kf, k2, hx, k3, ev, ek, eh, e⟩ | ⟨hd, v, k1, kf, k2, hx, k3, ev, ek, eh, e⟩ <;>
+    rw [e] at hok ⊢ <;> simp at hok
+  · obtain ⟨c1, c2, c3⟩ := h.2.2.2 hd
+    exact ⟨⟨durable_of_clean _ h.1 c1, durable_of_clean _ h.2.1 c2, durable_of_clean _ h.2.2.1 c3⟩, h⟩
+  · have sv := flush_spec' h.1 ev
+    have sk := flush_spec' h.2.1 ek
+    have sh := flush_spec' h.2.2.1 eh
+    exact ⟨⟨(sv.2.2.2.1 rfl).1, (sk.2.2.2.1 rfl).1, (sh.2.2.2.1 rfl).1⟩,
+      sv.1, sk.1, sh.1, fun _ => ⟨(sv.2.2.2.1 rfl).2, (sk.2.2.2.1 rfl).2, (sh.2.2.2.1 rfl).2⟩⟩
+
+theorem noFaults_fails (j : Nat) : noFaults.fails j = false := rfl
 
 /-- a map that was only created (dirty flag raised by `open`, headers in the buffers) becomes a
 valid image on disk with the first successful flush: same theorem, the memory view being the
 rendered empty map -/
 theorem C03_fresh (kind : SyncKind) (m : MapBuf) (h : m.OK) (hd : m.dirty = true) :
-    (m.flushLike noFaults kind).2.1 = true ∧ (m.flushLike noFaults kind).1.Durable := by sorry
+    (m.flushLike noFaults kind).2.1 = true ∧ (m.flushLike noFaults kind).1.Durable := by
+  have _ := hd  -- (not needed: with a clear flag the call is a no-op on an already durable map)
+  have key : (m.flushLike noFaults kind).2.1 = true := by
+    rcases flushLike_cases noFaults kind m with ⟨hd', e⟩ | ⟨hd', v, k1, ev, e⟩ |
+      ⟨hd', v, k1, kf, k2, ev, ek, e⟩ |
+      ⟨hd', v, k1, kf, k2, hx, k3, ev, ek, eh, e⟩ | ⟨hd', v, k1, kf, k2, hx, k3, ev, ek, eh, e⟩ <;>
+      rw [e]
+    · exact absurd ((flush_spec' h.1 ev).2.2.2.2.2 noFaults_fails) (by simp)
+    · exact absurd ((flush_spec' h.2.1 ek).2.2.2.2.2 noFaults_fails) (by simp)
+    · exact absurd ((flush_spec' h.2.2.1 eh).2.2.2.2.2 noFaults_fails) (by simp)
+  exact ⟨key, (C03_durable noFaults kind m h key).1⟩
 
 /-- sync_all / sync_data ask the operating system to sync each of the three files, each after
 that file's own write-back, in the order value, key, table file -/
 theorem C03_sync_events (φ : Faults) (kind : SyncKind) (m : MapBuf) (hd : m.dirty = true)
     (hok : (m.flushLike φ kind).2.1 = true) :
-    (m.flushLike φ kind).2.2 = evs kind "val" ++ evs kind "key" ++ evs kind "htx" := by sorry
+    (m.flushLike φ kind).2.2 = evs kind "val" ++ evs kind "key" ++ evs kind "htx" := by
+  rcases flushLike_cases φ kind m with ⟨hd', e⟩ | ⟨hd', v, k1, ev, e⟩ |
+    ⟨hd', v, k1, kf, k2, ev, ek, e⟩ |
+    ⟨hd', v, k1, kf, k2, hx, k3, ev, ek, eh, e⟩ | ⟨hd', v, k1, kf, k2, hx, k3, ev, ek, eh, e⟩ <;>
+    rw [e] at hok ⊢ <;> simp at hok
+  · simp [hd] at hd'
 
 /-- **C16 (reported).** If the operating system refuses any write the call attempts, the call
 returns Err: an Ok result means no attempted write was refused. -/
 theorem C16_reported (φ : Faults) (kind : SyncKind) (m : MapBuf) (h : m.OK)
-    (hfail : (m.flushLike φ kind).2.1 = false) : ∃ j, φ.fails j = true := by sorry
+    (hfail : (m.flushLike φ kind).2.1 = false) : ∃ j, φ.fails j = true := by
+  rcases flushLike_cases φ kind m with ⟨hd', e⟩ | ⟨hd', v, k1, ev, e⟩ |
+    ⟨hd', v, k1, kf, k2, ev, ek, e⟩ |
+    ⟨hd', v, k1, kf, k2, hx, k3, ev, ek, eh, e⟩ | ⟨hd', v, k1, kf, k2, hx, k3, ev, ek, eh, e⟩ <;>
+    rw [e] at hfail <;> simp at hfail
+  · obtain ⟨j, _, _, hj⟩ := (flush_spec' h.1 ev).2.2.2.2.1 rfl; exact ⟨j, hj⟩
+  · obtain ⟨j, _, _, hj⟩ := (flush_spec' h.2.1 ek).2.2.2.2.1 rfl; exact ⟨j, hj⟩
+  · obtain ⟨j, _, _, hj⟩ := (flush_spec' h.2.2.1 eh).2.2.2.2.1 rfl; exact ⟨j, hj⟩
 
 /-- **C16 (nothing lost).** A flush — failed or not — never changes what the map sees in memory -/
 theorem C16_memory_intact (φ : Faults) (kind : SyncKind) (m : MapBuf) :
     (m.flushLike φ kind).1.val.mem = m.val.mem ∧ (m.flushLike φ kind).1.key.mem = m.key.mem ∧
-    (m.flushLike φ kind).1.htx.mem = m.htx.mem := by sorry
+    (m.flushLike φ kind).1.htx.mem = m.htx.mem := by
+  rcases flushLike_cases φ kind m with ⟨hd', e⟩ | ⟨hd', v, k1, ev, e⟩ |
+    ⟨hd', v, k1, kf, k2, ev, ek, e⟩ |
+    ⟨hd', v, k1, kf, k2, hx, k3, ev, ek, eh, e⟩ | ⟨hd', v, k1, kf, k2, hx, k3, ev, ek, eh, e⟩ <;>
+    rw [e]
+  · exact ⟨rfl, rfl, rfl⟩
+  · exact ⟨flush_mem' ev, rfl, rfl⟩
+  · exact ⟨flush_mem' ev, flush_mem' ek, rfl⟩
+  · exact ⟨flush_mem' ev, flush_mem' ek, flush_mem' eh⟩
+  · exact ⟨flush_mem' ev, flush_mem' ek, flush_mem' eh⟩
+
+/-- helper: a failed flush-like call keeps the invariant and the raised flag -/
+theorem failed_ok (φ : Faults) (kind : SyncKind) (m : MapBuf) (h : m.OK)
+    (hfail : (m.flushLike φ kind).2.1 = false) :
+    (m.flushLike φ kind).1.OK ∧ (m.flushLike φ kind).1.dirty = true := by
+  rcases flushLike_cases φ kind m with ⟨hd', e⟩ | ⟨hd', v, k1, ev, e⟩ |
+    ⟨hd', v, k1, kf, k2, ev, ek, e⟩ |
+    ⟨hd', v, k1, kf, k2, hx, k3, ev, ek, eh, e⟩ | ⟨hd', v, k1, kf, k2, hx, k3, ev, ek, eh, e⟩ <;>
+    rw [e] at hfail ⊢ <;> simp at hfail
+  · exact ⟨⟨(flush_spec' h.1 ev).1, h.2.1, h.2.2.1, fun hc => by simp [hd'] at hc⟩, hd'⟩
+  · exact ⟨⟨(flush_spec' h.1 ev).1, (flush_spec' h.2.1 ek).1, h.2.2.1,
+      fun hc => by simp [hd'] at hc⟩, hd'⟩
+  · exact ⟨⟨(flush_spec' h.1 ev).1, (flush_spec' h.2.1 ek).1, (flush_spec' h.2.2.1 eh).1,
+      fun hc => by simp [hd'] at hc⟩, hd'⟩
 
 /-- **C16 (recovery).** After a failed flush the buffers are still consistent and the dirty flag
 is still raised, so once writes are accepted again a later flush returns Ok and makes everything
@@ -76,12 +297,22 @@ theorem C16_recovers (φ : Faults) (kind kind' : SyncKind) (m : MapBuf) (h : m.O
     (m1.flushLike noFaults kind').1.Durable ∧
     (m1.flushLike noFaults kind').1.val.mem = m.val.mem ∧
     (m1.flushLike noFaults kind').1.key.mem = m.key.mem ∧
-    (m1.flushLike noFaults kind').1.htx.mem = m.htx.mem := by sorry
+    (m1.flushLike noFaults kind').1.htx.mem = m.htx.mem := by
+  intro m1
+  obtain ⟨h1, h2⟩ := failed_ok φ kind m h hfail
+  obtain ⟨h3, h4⟩ := C03_fresh kind' m1 h1 h2
+  obtain ⟨a1, a2, a3⟩ := C16_memory_intact noFaults kind' m1
+  obtain ⟨b1, b2, b3⟩ := C16_memory_intact φ kind m
+  exact ⟨h1, h2, h3, h4, a1.trans b1, a2.trans b2, a3.trans b3⟩
 
 /-- without the dirty flag (the defect fixed by `fix: raise the dirty flag…`) the claim is false:
 a map with pending writes whose flag is clear is not made durable. Kept as the refutation witness
 of the unfixed behaviour. -/
 example : ∃ m : MapBuf, m.dirty = false ∧ (m.flushLike noFaults .flush).2.1 = true ∧
-    ¬ (m.flushLike noFaults .flush).1.val.Durable := by sorry
+    ¬ (m.flushLike noFaults .flush).1.val.Durable := by
+  let f : BFile := { disk := ⟨fun _ => 0, 0⟩, mem := ⟨fun _ => 1, 0⟩, dirty := [0], chunk := 4 }
+  refine ⟨⟨f, f, f, false⟩, rfl, ?_, ?_⟩
+  · simp [MapBuf.flushLike]
+  · simp [MapBuf.flushLike, BFile.Durable, f]
 
 end Abyss.Buf
